@@ -76,6 +76,13 @@ func New(cidrs []string) (*Set, []BadEntry) {
 }
 
 func (s *Set) add(p netip.Prefix) {
+	// A prefix written in IPv4-mapped form (::ffff:10.0.0.0/104) is an IPv4
+	// prefix. Contains unmaps every mapped source and searches the IPv4
+	// table, so filed under IPv6 such an entry parses, counts, and can
+	// never match anything.
+	if a := p.Addr(); a.Is4In6() && p.Bits() >= 96 {
+		p = netip.PrefixFrom(a.Unmap(), p.Bits()-96)
+	}
 	p = p.Masked()
 	lo, hi := bounds(p)
 	if p.Addr().Is4() {
